@@ -102,6 +102,8 @@ pub struct Prep {
     pub r_amt: u64,
     pub big_borrow: u64,
     pub small_borrow: u64,
+    /// a second marginfi account of the liquidator that never held a position (no active balance at all)
+    pub empty_acct: Pubkey,
     /// the liquidator's token account for the emissions mint (emissions are switched on for the collateral bank in
     /// every other world)
     pub em_dest: Pubkey,
@@ -228,6 +230,18 @@ fn prepare(c: &BrCase, c10: bool) -> Option<Prep> {
             _ => {}
         }
     }
+    // an account without any position (flash-loan brackets on it have nothing to check at the end — and must still
+    // clear the flag)
+    let empty_acct = kp("brackets_empty_acct", 0);
+    {
+        let mut ix = w.ix_account_init(empty_acct, l.auth);
+        for m in ix.accounts.iter_mut() {
+            if m.pubkey == empty_acct {
+                m.is_signer = true;
+            }
+        }
+        w.vm.exec(&ix).ok()?;
+    }
     let liq = w.tok(&w.banks[lb].lv);
     // the liquidator's own group: initialise + configure with every role = the liquidator
     let foreign_group = kp("foreign_group", 0);
@@ -257,7 +271,7 @@ fn prepare(c: &BrCase, c10: bool) -> Option<Prep> {
         };
         w.vm.exec(&ix).ok()?;
     }
-    Some(Prep { w, u, v, l, w_amt, r_amt, em_dest, big_borrow: (power.saturating_mul(3)).min(liq / 2).max(amt), small_borrow: (amt / 50).max(1), foreign_group })
+    Some(Prep { w, u, v, l, w_amt, r_amt, em_dest, empty_acct, big_borrow: (power.saturating_mul(3)).min(liq / 2).max(amt), small_borrow: (amt / 50).max(1), foreign_group })
 }
 
 // ------------------------------------------------------------------------------------------
@@ -269,7 +283,7 @@ pub const C10_SYMS: &[&str] = &["cb", "sA", "sV", "eA", "eV", "wA", "rA", "bA", 
 // "feV&A" = end for account V with account U appended as a trailing (ignored) remaining account;
 // "feA0" / "feA1" = a genuine end for U whose observation accounts are missing altogether / lack the borrowed bank
 // (the risk engine cannot be built: the end must fail, never pass unchecked)
-pub const C11_SYMS: &[&str] = &["fs0", "fs1", "fs2", "fs3", "fs4", "fs9", "feA", "feV", "bBig", "bSm", "wBig", "dA", "rAll", "lqA", "bkA", "sA", "eA", "tA", "cA", "p:fs2", "p:feA", "p:bBig", "cb", "feV&A", "feA+", "fsH0", "fsH1", "fsG1", "feA0", "feA1", "tP"];
+pub const C11_SYMS: &[&str] = &["fs0", "fs1", "fs2", "fs3", "fs4", "fs9", "feA", "feV", "bBig", "bSm", "wBig", "dA", "rAll", "lqA", "bkA", "sA", "eA", "tA", "cA", "p:fs2", "p:feA", "p:bBig", "cb", "feV&A", "feA+", "fsH0", "fsH1", "fsG1", "feA0", "feA1", "tP", "xsE1", "xeE"];
 
 /// end index named by a flash-loan start symbol: "fs<k>" = k, "fsH<k>" = 65536 + k, "fsG<k>" = 2^32 + k
 /// (indices that alias position k if the program narrows the 64-bit argument to 16 / 32 bits)
@@ -388,6 +402,9 @@ fn build_ix(p: &Prep, sym: &str) -> Instruction {
         "js" => foreign_ix(proxy_id_allowed(), vec![0u8; 40]),
         "sd" => foreign_ix(proxy_id_allowed(), vec![1, 2, 3, 4]),
         "un" => foreign_ix(noop_ids()[1], vec![0u8; 16]),
+        // a well-formed bracket on an account that holds nothing: [xsE1 at #0, xeE at #1]
+        "xsE1" => w.ix_start_flashloan(p.empty_acct, p.l.auth, 1),
+        "xeE" => w.ix_end_flashloan(p.empty_acct, p.l.auth, vec![]),
         "fsA" => w.ix_start_flashloan(ua, p.u.auth, 3),
         "feA" => w.ix_end_flashloan(ua, p.u.auth, w.risk_metas(&ua, Some(w.banks[lb].key), None)),
         "feV" => w.ix_end_flashloan(va, p.v.auth, w.risk_metas(&va, None, None)),
